@@ -141,6 +141,9 @@ func (c *ProcCase) setup(dir string, variant string) (args []string, stdinPath s
 		args = append(args, "-o", "outdir")
 	case "devfull":
 		args = append(args, "-o", "/dev/full")
+	case "inplace":
+		// -o names the first input itself
+		args = append(args, "-o", c.Inputs[0].Name)
 	case "devnull":
 		args = append(args, "-o", "/dev/null")
 	case "fifo":
@@ -793,9 +796,21 @@ func genProcCase(t *Tape, c01only bool) *ProcCase {
 	c.Extra = t.Draw(3)
 	// fault states of the simulated filesystem
 	if t.Chance(1, 5) {
-		fk := t.Weighted(3, 3, 2, 2, 2, 2, 2, 2, 3)
+		fk := t.Weighted(3, 3, 2, 2, 2, 2, 2, 2, 3, 1)
 		forcePrefix := fk == 8
 		switch fk {
+		case 9:
+			// very many inputs that cannot be opened (counts around powers of two)
+			n := []int{2, 17, 100, 255, 256, 257, 512, 1024}[t.Draw(8)]
+			keep := c.Inputs
+			c.Inputs = nil
+			if len(keep) > 0 && t.Chance(1, 2) {
+				c.Inputs = append(c.Inputs, keep[0])
+			}
+			for k := 0; k < n; k++ {
+				c.Inputs = append(c.Inputs, ProcFile{Name: fmt.Sprintf("gone%d.json", k), Kind: "missing"})
+			}
+			c.Stdin = nil
 		case 0:
 			if len(c.Inputs) > 0 {
 				if i := t.Draw(len(c.Inputs)); c.Inputs[i].Kind != "procfs" {
